@@ -153,6 +153,26 @@ theorem C25_event_stream_drained (fs : List Filter) (cap : Nat) (sched : List Ac
 example : (esRun [⟨"user", "a"⟩] 1 [.arrive ⟨"user", "a", 1⟩, .arrive ⟨"user", "b", 2⟩, .arrive ⟨"user", "a", 3⟩,
       .consume, .arrive ⟨"user", "a", 4⟩, .consume]).sent = [⟨"user", "a", 1⟩, ⟨"user", "a", 4⟩] := by decide
 
+/-- **Each matching event once**: an event dispatched to an open stream with room enters the buffer
+exactly once however many of the filters it matches (the filter loop stops at the first match). -/
+theorem C25_event_once (fs : List Filter) (cap : Nat) (pre : List Act) (e : Ev)
+    (hw : wanted fs e = true) (hopen : (esRun fs cap pre).stopped = false) (hroom : (esRun fs cap pre).buf.length < cap) :
+    (esRun fs cap (pre ++ [.arrive e])).buf = (esRun fs cap pre).buf ++ [e] := by
+  simp only [esRun] at hopen hroom
+  simp [esRun, List.foldl_append, esStep, hw, hopen, hroom]
+
+example : wanted [⟨"user", ""⟩, ⟨"user", "deploy"⟩] ⟨"user", "deploy", 1⟩ = true ∧
+    (esRun [⟨"user", ""⟩, ⟨"user", "deploy"⟩] 4 [.arrive ⟨"user", "deploy", 1⟩, .consume, .consume]).sent = [⟨"user", "deploy", 1⟩] := by
+  decide
+
+/-- **Regression witness (seeded C25-e)**: with one enqueue per matching filter, a stream opened with
+the overlapping filters `user,user:deploy` carries the event twice. -/
+theorem C25_enqueue_per_filter_counterexample :
+    (esRunPerFilter [⟨"user", ""⟩, ⟨"user", "deploy"⟩] 4 [.arrive ⟨"user", "deploy", 1⟩, .consume, .consume]).sent =
+      [⟨"user", "deploy", 1⟩, ⟨"user", "deploy", 1⟩] ∧
+    (liveArrivals [Act.arrive ⟨"user", "deploy", 1⟩, .consume, .consume]).filter (wanted [⟨"user", ""⟩, ⟨"user", "deploy"⟩]) =
+      [⟨"user", "deploy", 1⟩] := by decide
+
 /-- non-vacuity with a failing send and a stop: event 1 sent, event 3's send fails (lost), event 4
 stays buffered, event 5 arrives after Stop and is ignored -/
 example : let s := esRun [⟨"user", "a"⟩] 4 [.arrive ⟨"user", "a", 1⟩, .consume, .arrive ⟨"user", "a", 3⟩,
